@@ -122,6 +122,10 @@ structure Tracker where
   i : Nat := 0
   last : Snap := { held := [], queue := [], nflows := 0 }
   pending : Pending := .none
+  /-- the aggregation ACCEPTED a record whose template lacks elements (a flow created from it lacks them
+      too, so complete records of that flow may be refused from now on): a refused record is no longer
+      a failure by itself; it still must leave the schedule alone -/
+  lax : Bool := false
   deriving Repr, Inhabited
 
 end Ipfix.C06
